@@ -3,7 +3,7 @@
 patch=$1; shift
 git -C /repo apply "$patch" || exit 9
 for p in "$@"; do
-  python3-vt /verif/checks/check.py $p --tier quick 2>&1 | grep -E "VIOLATION|KNOWN|UNDECIDED|ENGINE|obligations" | cut -c1-260
+  PYVC_NO_EVIDENCE=1 PYVC_REPLAY_DIR=${SEED_REPLAY_DIR:-/verif/replays/tmp-seeds} python3-vt /verif/checks/check.py $p --tier quick 2>&1 | grep -E "VIOLATION|KNOWN|UNDECIDED|ENGINE|obligations" | cut -c1-260
   echo "rc[$p]=${PIPESTATUS[0]}"
 done
 git -C /repo checkout -- .
